@@ -722,6 +722,16 @@ func main() {
 		rn.run(genHistory(r, focus))
 		rn.stats["history"]++
 	}
+	// requests with many filters: their own stream, so that the histories above stay the same for a given seed
+	rb := hx.NewRng(hx.EnvSeed() + 7919)
+	for i, nb := 0, 3+n/40; i < nb; i++ {
+		rn.run(genBigSubscribe(rb, i+int(hx.EnvSeed())))
+		rn.stats["big-subscribe"]++
+	}
+	for i, nb := 0, 2+n/60; i < nb; i++ {
+		rn.run(genOddConnects(rb, i+int(hx.EnvSeed())))
+		rn.stats["odd-connects"]++
+	}
 	finish()
 	_ = io.EOF
 }
